@@ -72,7 +72,15 @@ def moves_of_write(f, pt, bb):
             fc = factor_classes(e)
             if fc is None:
                 return None
-            moves.append(("plain", fc[0], fc[1]))
+            mcls = fc[1]
+            # constant multiplier index must equal the destination position
+            ev = mir.strip_refs(e)
+            for side in (mir.strip_refs(ev[2]), mir.strip_refs(ev[3])):
+                base, idx = _elem_index(side)
+                if base is not None and not (inp is not None and _derives_from(base, inp)):
+                    if idx[0] == "const" and idx[2] != k:
+                        mcls = "wrong-const(%s for %d)" % (idx[2], k)
+            moves.append(("plain", fc[0], mcls))
         return moves
     # update form: phi / upd chain with dynamic element paths
     seen = []
